@@ -14,9 +14,15 @@ ASSUMPTIONS = [
     "(getTips() after the call) and handed to the model; theorems hold for every order",
 ]
 META = {
-    "text": "see props/C08.py run(): Coq theorems on coq/Tree/TreeDefs.v for all trees/blocks/reasons/interleavings; "
-            "step-by-step correspondence with AltBlockTree (empty payloads) and BlockTree<BtcBlock>; direct oracle on the "
-            "implementation around every invalidateSubtree/revalidateSubtree",
+    "text": "Coq theorems (all tree shapes, blocks, both reasons, all interleavings, both tree kinds) on the executable model "
+            "coq/Tree/TreeDefs.v: invalidateSubtree and revalidateSubtree, every early exit included, preserve the flag invariant "
+            "(proper tree, FAILED_CHILD <=> failed parent, so every descendant of an invalid block is failed and descendants invalid "
+            "for another reason stay invalid); pointwise exactness of the traversal (only FAILED_CHILD of visited blocks changes); "
+            "lifted over arbitrary op lists of inv/reval/rm/setState. _partial / not proved: inv_reval_id (restoration of flags and "
+            "tips), the tip-set and active-chain conjuncts, best_chain_never_invalid - these are decided on the implementation by "
+            "the direct oracle of harness/h_tree.cpp around every inv/reval (subtree unusable, outside unchanged, best chain off the "
+            "subtree and free of failed blocks, flags and tips restored once everything invalidated is revalidated) and by the "
+            "per-step comparison with the model (exhaustive over tree shapes x op sequences, and random histories)",
     "note": "Trusted: Coq kernel, extraction, OCaml driver, C++ harness; the traversals are modelled as one oldest-first pass",
     "technique": "Coq proof (invariant over newest-first block lists) + extraction-based differential correspondence",
 }
@@ -45,25 +51,27 @@ def run(ctx):
         sc.cases.append((0, len(sc.lines) - 1, "replay"))
     else:
         quick = ctx.tier == "quick"
+        _tree.add_corpus("C08", sc)
         # exhaustive: every shape x every (block, reason) x every sequence of nested inv/reval ops
         for kind in ("P", "T"):
             if quick:
                 _tree.exhaustive(kind, 4, 3, sc, stats)
                 _tree.exhaustive(kind, 6, 1, sc, stats)
             else:
-                _tree.exhaustive(kind, 5, 4, sc, stats)
-                _tree.exhaustive(kind, 6, 3, sc, stats)
+                _tree.exhaustive(kind, 4, 4, sc, stats)
+                _tree.exhaustive(kind, 5, 3, sc, stats)
                 _tree.exhaustive(kind, 7, 2, sc, stats)
-        n = 60 if quick else 600
+        n = 60 if quick else 400
         for i in range(n):
             _tree.random_history("T" if i % 2 == 0 else "P", ctx.rng.fork(), 60 if quick else 120, 14, sc, stats)
     ctx.cov["tree"] = dict(stats)
     ctx.cov["exhaustive"] = True
     ctx.cov["rule"] = ("exhaustive: all unlabelled rooted tree shapes x all sequences of inv/reval over (block, reason) "
-                       "(quick: <=4 blocks x length 3, <=6 blocks x length 1; thorough: <=5 x 4, <=6 x 3, <=7 x 2), each followed by "
+                       "(quick: <=4 blocks x length 3, <=6 blocks x length 1; thorough: <=4 blocks x length 4, <=5 x 3, <=7 x 2), each followed by "
                        "revalidation of everything invalidated; random: ALT/PoW histories of hdr/body(random order)/set/inv/reval/"
                        "rm/rmpl/re-add; distinct = distinct script lines")
     res = _tree.correspondence(ctx, model, harness, sc, "C08")
+    _tree.known_finding_readd(ctx, harness)
     ctx.cov["distinct_nontrivial"] = len(set(sc.lines))
     for l in sc.numbered()[5:8]:
         i = l.partition(" ")[0]
